@@ -5,7 +5,8 @@ core platforms; sync and asyncio must agree), the flags _get_prompt_pattern comp
 ANSI_ESCAPE_PATTERN and ANSI_ESCAPE_PARTIAL_PATTERN, which of the two known shapes the escape-sequence
 carry-over of read() has (AST), that every use of the prompt pattern in the channel classes compiles the pattern TEXT of
 _base_channel_args at that use through the static, text-keyed _get_prompt_pattern (AST; no compiled pattern kept on the channel)
-and that the helpers follow a changed text (probe), and the unit-level behaviour of _process_read_buf, _process_output,
+and that the helpers follow a changed text (probe), and the unit-level behaviour of _process_read_buf, _process_output
+(called with EVERY signature it accepts: a parameter beyond buf / strip_prompt is fed values derived from the buffer),
 _get_prompt_pattern and of Channel.read / AsyncChannel.read themselves (one transport chunk in, what read() returns
 and what it carries over out) observed by calling them on probe inputs (compiled as obligations over the model)."""
 import ast
@@ -82,6 +83,31 @@ def _probes():
                 break
         else:
             raise ValueError("no probe text whose search-depth point lies inside a word")
+        # outputs that hold the text of the command that asked for them as a line of their own (first / inner / last / only line,
+        # other case, other blanks, twice): cleaning is a function of the buffer alone
+        cmd_texts = [b"\nshow clock\n12:00:00 UTC\nrouter1#", b"\n\nShow  Clock \n12:00\nrouter1#", b"\nhostname\nrouter1#",
+                     b"\n12:00\nshow clock\nrouter1#", b"\nfirst\nshow clock\nlast\nrouter1#", b"\nshow clock\nshow clock\nrouter1# "]
+        texts += cmd_texts
+        # every signature the REAL _process_output accepts: (buf, strip_prompt) and, should it have grown further parameters, each
+        # of them given values derived from the buffer itself (its lines as bytes and as text, as they are / lower case / without
+        # blanks / with the return character, the whole buffer) and the usual flags - by keyword and by position.  All calls are
+        # probes of the model's process_output, which is a function of (return char, pattern, buffer, strip_prompt) only.
+        sig = inspect.signature(ch._process_output)
+        params = list(sig.parameters.values())
+        if [p.name for p in params[:2]] != ["buf", "strip_prompt"] or any(p.kind in (p.VAR_POSITIONAL, p.VAR_KEYWORD) for p in params):
+            raise ValueError("_process_output: unexpected signature %s" % sig)
+        extras = params[2:]
+        extra_calls = 0
+
+        def values_for(t):
+            vals = []
+            for line in [l for l in t.split(b"\n") if l.strip()][:3] + [t]:
+                for v in (line, line.strip(), line.lower(), b"".join(line.split()), line.strip() + b"\n", line.strip() + b"\r\n"):
+                    for w in (v, v.decode("latin-1")):
+                        if w not in vals:
+                            vals.append(w)
+            return vals + [True, False, None, 0, 1, b"", ""]
+
         for ret in ("\n", "\r\n"):
             args.comms_return_char = ret
             for strip in (True, False):
@@ -90,6 +116,28 @@ def _probes():
                     if not isinstance(r, bytes):
                         raise ValueError("_process_output returned %r" % type(r))
                     po.append((ret.encode(), strip, t, r))
+                for i, p in enumerate(extras):
+                    accepted = 0
+                    for t in cmd_texts + texts[3:5]:
+                        for v in values_for(t):
+                            calls = [lambda: ch._process_output(buf=t, strip_prompt=strip, **{p.name: v})] if p.kind != p.POSITIONAL_ONLY else []
+                            if p.kind in (p.POSITIONAL_ONLY, p.POSITIONAL_OR_KEYWORD) and all(q.default is not q.empty for q in extras[:i]):
+                                calls.append(lambda: ch._process_output(t, strip, *([q.default for q in extras[:i]] + [v])))
+                            for call in calls:
+                                try:
+                                    r = call()
+                                except Exception:  # noqa  (a value the parameter does not take: not a signature it accepts)
+                                    continue
+                                if not isinstance(r, bytes):
+                                    raise ValueError("_process_output returned %r" % type(r))
+                                accepted += 1
+                                item = (ret.encode(), strip, t, r)
+                                if item not in po:
+                                    po.append(item)
+                    if not accepted:
+                        raise ValueError("_process_output: no value found that its parameter %r accepts" % p.name)
+                    extra_calls += accepted
+        facts_sig = {"names": [p.name for p in params], "calls_with_further_parameters": extra_calls}
     finally:
         args.comms_prompt_search_depth, args.comms_return_char = saved
     cls = args.comms_prompt_pattern
@@ -102,7 +150,7 @@ def _probes():
         "xpat_other_is_literal": (p_lit.flags & mask) == 0 and p_lit.search(b"xx a.c [y/n]? yy") is not None
         and p_lit.search(b"abc [y/n]?") is None and p_lit.search(b"A.C [Y/N]?") is None,
     }
-    return prb, po, facts
+    return prb, po, facts, facts_sig
 
 
 PROMPT_USERS = {"BaseChannel": ["_process_output", "_interaction_complete", "_pre_channel_authenticate_ssh", "_pre_channel_authenticate_telnet"],
@@ -361,7 +409,7 @@ def generate(outdir):
             raise ValueError("_hold_back_partial_ansi: expected %r" % needle)
     lines.append("Definition gen_hold_scan : bool := %s." % ("true" if scan else "false"))
     info["hold_scan"] = scan
-    prb, po, facts = _probes()
+    prb, po, facts, po_sig = _probes()
     info["pattern_text_uses"] = _pattern_reads()
     facts["pattern_read_at_each_use"] = _pattern_follow_probe()
     lines.append("(* (depth, buffer, _process_read_buf(buffer)) observed on the real helper *)")
@@ -376,7 +424,7 @@ def generate(outdir):
         "(%s, %s, %s, %s)" % (_cb(a), _cb(b), _cb(c), _cb(d)) for a, b, c, d in rd))
     for k, v in sorted(facts.items()):
         lines.append("Definition gen_%s : bool := %s." % (k, "true" if v else "false"))
-    info["probes"] = {"prb": len(prb), "process_output": len(po), "read": len(rd),
+    info["probes"] = {"prb": len(prb), "process_output": len(po), "process_output_signature": po_sig, "read": len(rd),
                       "read_without_esc": sum(1 for a, b, _, _ in rd if 27 not in a + b), "xpat": facts}
     text = "\n".join(lines) + "\n"
     path = os.path.join(outdir, "Gen_Channel.v")
